@@ -38,7 +38,7 @@ PROPS = {
         '2..8 satisfiable ranges (overlapping, adjacent, duplicate, at both ends, open and suffix forms) x entity lengths {300, 1000, 1e5, 2^32+7, 2^63, 2^64-1} x 4 entity header sets (0..3 headers, up to 200-byte values) x with/without matching If-Range x honest chunkings. Non-trivial = a multipart response.' + GEN_NOTE),
     'C07': serve_prop(['body.end', 'body.len'], [],
         'fault enumeration, exhaustive for streams of <= 3 (quick) / 4 (thorough) chunks: every chunk index x {early end, error, Pending then error, Pending then early end, one byte short, one extra byte, empty chunk, Pending, one extra chunk, error after completion} x shapes {200, single 206, multipart part j of n, n <= 3}; plus random faulty streams in mixed requests.' + GEN_NOTE),
-    'C12': serve_prop(['hint0', 'eos0', 'poll.hint', 'poll.eos', 'op.hint', 'op.eos', 'polls', 'ops', 'once.hint0', 'once.bytes'], [],
+    'C12': serve_prop(['hint0', 'eos0', 'poll.hint', 'poll.eos', 'polls', 'ops', 'once.hint0', 'once.bytes'], [],
         'size_hint() and is_end_stream() sampled before the first and after every poll of every body of a mixed request stream, multipart sets, fault scripts and exhaustive small chunkings; Body::empty() and the four Body::from conversions for lengths {0,1,2,255,4096,65537}; and, for streaming_body bodies, after every operation of random write/flush/poll histories with and without abort / body drop, raw and gzip.' + GEN_NOTE),
     'C13': serve_prop(['status.class', 'allow', 'calls.405', 'body.panic'], [],
         'methods (standard and extension tokens) x header values from three streams (grammar-derived, near-miss, arbitrary bytes incl. >= 0x80) x repeated header lines x entity lengths {0,1,...,2^32,2^63,2^64-1} x ETag/mtime presence; panics are caught around serve() and around every poll.' + GEN_NOTE),
@@ -61,7 +61,7 @@ def stream_prop(fields, trivial, rule):
     return dict(engine='stream', fields=fields + ['shape'], trivial_tags=trivial, rule=rule, trusted_base=STREAM_TB, assumptions=STREAM_ASSUME)
 PROPS['C08'] = stream_prop(['op.wres', 'stream.delivered', 'stream.end', 'hint0', 'eos0', 'writer'], ['raw:head'],
     'all sequences of <= 4 (quick) / 5 (thorough) operations over {write(0,1,cap-1,cap,cap+1,2cap,3cap bytes), flush, poll-until-pending} for chunk sizes 1..4, each followed by drop + drain (exhaustive); random sequences of <= 40 operations (write, write_all, flush, poll, poll-until-pending, same or fresh waker) for chunk sizes {1,2,3,4,7,4096,65536}. Payload bytes carry their position. Non-trivial = the request has a writer.' + GEN_NOTE)
-PROPS['C11'] = stream_prop(['op.wres', 'op.weos', 'stream.delivered', 'stream.end', 'trace'], [],
+PROPS['C11'] = stream_prop(['op.wres', 'stream.delivered', 'stream.end', 'trace'], [],
     'an abort or a body drop inserted at every position of every sequence of <= 3 (quick) / 4 (thorough) operations over {write(1,cap,cap+1,3cap), flush, poll-until-pending} x chunk sizes {1,2,4} x raw and gzip writers, followed by 3 x (write, flush), drain, drop; the 1000 x (write, flush) after body drop scenario; random sequences with a fault. Concurrent part (engine sched): every producer program of C10 that aborts, and every program against a consumer that drops the body after 0..2 polls, under all schedules (<= 200 quick / 2000 thorough per program) with yield points after every producer lock release and before any second lock acquisition inside one consumer poll; outcome clauses are computed from the executed trace alone (clean end after abort, write/flush succeeding after abort, delivered bytes not a prefix of the accepted bytes, consumer never told).' + GEN_NOTE)
 PROPS['C09'] = stream_prop(['hdr:vary', 'hdr:content-encoding', 'writer'], [],
     'gzip levels 1..9 x chunk sizes {1,2,3,5,8,10,18,19,4096,65536} x payloads {empty, 1 byte, incompressible, highly compressible, text; 600 B for tiny chunks, 20 KiB (quick) / 200 KiB (thorough)} x 4 write/flush shapes (one write_all; flush in the middle with drains; many small writes with random flushes; flushes before any data), plus random sequences. Every body is decoded by an independent inflater (Python zlib, streaming) after every flush and at the end.' + GEN_NOTE)
